@@ -3,6 +3,7 @@ M: Prelude.tla - functional definitions; the range-cursor loop models of take/dr
    algebraic laws (take ++ drop = id, reverse . reverse = id, ...) hold on every vector inside the bound.
 G: every case (function x input vector x callback of the menu x numeric argument class) exported with expected
    result, callback trace and unchanged input, replayed through the real prelude."""
+import json
 import os
 import re
 
@@ -48,6 +49,15 @@ def script(c):
     return pre + f"var res = {call}; [res, calls, inp, inp2]" if fn != "for_each" else pre + f"{call}; [0, calls, inp, inp2]"
 
 
+def str_script(c):
+    lit = lambda x: json.dumps(x)
+    if c["fn"] == "join_ints":
+        v = "[" + ", ".join(f"({x})" for x in c["a"]) + "]" if c["a"] else "Vector()"
+        return f"join({v}, {lit(c['d'])})"
+    v = "[" + ", ".join(lit(x) for x in c["a"]) + "]" if c["a"] else "Vector()"
+    return f"join({v}, {lit(c['d'])})" if c["fn"] == "join" else f"to_string({v})"
+
+
 def expected(c):
     e = c["exp"]
     t = e["t"]
@@ -85,12 +95,15 @@ def run(ck, tier, seed):
     if not res.ok:
         ck.violation("model", f"Prelude specification inconsistent: {res.violation}", res.output[-2000:])
     work = lib.scratch("c17")
-    o1, o2 = os.path.join(work, "v.ndjson"), os.path.join(work, "s.ndjson")
-    r = lib.tlc("PreludeExport", "PreludeExport" + suffix, workers=1, timeout=1200, env={"OUT": o1, "OUT2": o2}, heap="6g")
+    o1, o2, o3 = os.path.join(work, "v.ndjson"), os.path.join(work, "s.ndjson"), os.path.join(work, "t.ndjson")
+    r = lib.tlc("PreludeExport", "PreludeExport" + suffix, workers=1, timeout=1200, env={"OUT": o1, "OUT2": o2, "OUT3": o3}, heap="6g")
     if not r.ok:
         raise lib.Infra("Prelude export failed")
     cs = lib.read_ndjson(o1) + lib.read_ndjson(o2)
     cases = [{"id": str(i), "to": 30, "steps": [{"op": "eval", "src": script(c)}]} for i, c in enumerate(cs)]
+    strs = lib.read_ndjson(o3)
+    for i, c in enumerate(strs):
+        cases.append({"id": f"s{i}", "to": 30, "steps": [{"op": "eval", "src": str_script(c)}]})
     vdrive = lib.build("vdrive", "plain")
     obs, _ = lib.run_driver(vdrive, cases, work, tag="c17")
     ck.exhaustive = True
@@ -110,9 +123,18 @@ def run(ck, tier, seed):
         elif s["oc"] != "val" or s["v"].replace("double:-0,", "double:0,") != want:   # -0.0 == 0.0 numerically
             ck.violation(key, f"{script(c)} gave {s.get('v') or s['oc'] + ' ' + str(s.get('why'))}, specification [result, callback trace, input, input2] = {want}",
                          {"case": c, "script": script(c), "expected": want, "observed": s})
+    for i, c in enumerate(strs):
+        o = obs[f"s{i}"]
+        ck.evaluations += 1
+        ck.nontrivial.add((c["fn"], c["d"], len(c["a"]), "text"))
+        key = f"{c['fn']}({json.dumps(c['a'])},{json.dumps(c['d'])})"
+        s = o.get("steps", [{}])[0] if "died" not in o else {"oc": "died"}
+        want = "string:" + json.dumps(c["exp"])
+        if s.get("oc") != "val" or s.get("v") != want:
+            ck.violation(key, f"{str_script(c)} gave {s.get('v') or s.get('oc')}, the specification says {want}", {"case": c, "observed": s})
     ck.rule = ("all vectors of length 0..%d over {-1,0,1,2} x callbacks {gt0,true,false,odd | inc,neg | add,sub,first} x numeric arguments "
                "{-1,0,1,size,size+1}; scalars -5..5; distinct = (function, callback, length, result kind)" % (3 if quick else 4))
     ck.sample({"script": script(cs[0]), "expected": expected(cs[0])})
     ck.sample({"script": script(cs[len(cs) // 2]), "expected": expected(cs[len(cs) // 2])})
-    ck.assumptions += ["string/map inputs, retro/range adaptors, find and the trim helpers are not in the exported family yet"]
+    ck.assumptions += ["vectors of strings are covered for join/to_string only; map inputs, retro/range adaptors, find and the trim helpers are not in the exported family yet"]
     lib.rm(work)
